@@ -1,6 +1,6 @@
 (* C09: the lock theorems.  Store lemmas are for ARBITRARY command sequences; the trace theorem is for every
    schedule of the system model. *)
-From RV Require Import Mon MonC09 Framework StoreLocks Discipline SysInv.
+From RV Require Import Mon MonC09 Framework StoreLocks Discipline SysInv Eqb.
 From Coq Require Import Lia.
 
 (* ---------- chains over a command list ---------- *)
@@ -118,9 +118,6 @@ Definition Inv09 (s : sys) : Prop := SInv s /\ locks_uniq (s_db s).
 Lemma Inv09_init : Inv09 (sys0 db0).
 Proof. split; [apply SInv_init|constructor]. Qed.
 
-Lemma flat_map_nil : forall {A B} (f : A -> list B) l, (forall x, In x l -> f x = []) -> flat_map f l = [].
-Proof. induction l as [|x l IH]; intros H; cbn; [reflexivity|]. rewrite H by (left; reflexivity). apply IH. intros; apply H; right; assumption. Qed.
-
 Lemma c09_step : forall cfg s d s' ob,
     Inv09 s -> dir_wf d -> step cfg s d = Some (s', ob) -> Inv09 s' /\ c09_chk (s_now s) (s_db s) d ob = [].
 Proof.
@@ -145,8 +142,6 @@ Proof.
   - destruct (other_steps_db cfg s _ s' ob H I) as [Hdb ->]. split; [split; [exact HS'|rewrite Hdb; exact HU]|reflexivity].
 Qed.
 
-(* requests as the front ends let them through (validated requests): see Discipline.req_wf *)
-Definition sch_wf (sch : list directive) : Prop := Forall dir_wf sch.
 
 Theorem C09_trace : forall cfg sch, sch_wf sch -> C09_mon (events cfg sch) = [].
 Proof.
